@@ -181,6 +181,7 @@ def _make_views(prop: str, rid: str):
 rule("C03")(_make_views("C03", "R03.12"))
 rule("C11")(_make_views("C11", "R11.10"))
 rule("C15")(_make_views("C15", "R15.8"))
+rule("C17")(_make_views("C17", "R17.12"))
 
 
 # ------------------------------------------------------------------------------------------------ parameters never read
@@ -556,10 +557,11 @@ SHARED = {
     "C03": [("c11", "r11_4_sign_discipline"), ("c15", "r15_12_timedelta_fields"), ("c15", "r15_13_no_coarser_type_on_the_way")],
     "C04": [("c02", "r02_5_leap_decisions")],
     "C06": [("c04", "r04_8_queries_are_used"), ("c02", "r02_5_leap_decisions"), ("c13", "r13_2_zone_interval_cache"), ("c01", "r01_5_per_year_consistency")],
-    "C18": [("c12", "r12_2_3_eq_hash_fields")],
+    "C18": [("c12", "r12_2_3_eq_hash_fields"), ("c09", "r09_12_months_between_is_checked_by_addition"), ("c13", "r13_12_packed_cache_words_are_unpacked")],
+    "C17": [("c13", "r13_13_bucket_providers_build_fresh_buckets")],
     "C12": [("c09", "r09_12_months_between_is_checked_by_addition")],
     "C16": [("c01", "r01_11_trusted_packings"), ("c10", "r10_14_borrow_and_carry_use_the_right_year"), ("c01", "r01_10_year_starts_vs_year_lengths"), ("c01", "r01_5_per_year_consistency")],
-    "C09": [("c01", "r01_11_trusted_packings"), ("c10", "r10_14_borrow_and_carry_use_the_right_year"), ("c13", "r13_10_cache_slot_is_validated_for_its_own_key")],
+    "C09": [("c01", "r01_11_trusted_packings"), ("c10", "r10_14_borrow_and_carry_use_the_right_year"), ("c13", "r13_10_cache_slot_is_validated_for_its_own_key"), ("c13", "r13_12_packed_cache_words_are_unpacked")],
     "C11": [("c03", "r03_11_trusted_instants"), ("c10", "r10_14_borrow_and_carry_use_the_right_year"), ("c13", "r13_2_zone_interval_cache"), ("c06", "r06_11_fixed_zone_table")],
     "C15": [("c03", "r03_11_trusted_instants"), ("c02", "r02_5_leap_decisions"), ("c03", "r03_15_duration_truncated_views")],
     "C14": [("c03", "r03_14_tick_arithmetic")],
